@@ -88,6 +88,7 @@ type cfg struct {
 	bk                         int    // batch-size corner: 1: WithBatchSize(0), 2: WithBatchSize(-1), 3: WithBatchSize(math.MinInt) (b is ignored)
 	dm                         int    // 1: every Enqueue picks a write mode (set / delete / delete+set / set+delete) for its object
 	md                         string // same-batch: the write modes of the successive Enqueues, one digit each
+	fk, fa                     int    // store-fail: the fa-th (1-based) call of Commit() (fk=1) / Batched() (fk=2) of the store fails
 	seed                       uint64
 }
 
@@ -97,8 +98,8 @@ func (c cfg) line() string {
 		md = "-"
 	}
 
-	return fmt.Sprintf("cfg kind=%s q=%d b=%d t=%d tk=%d p=%d o=%d n=%d fl=%d stop=%d hy=%d fin=%d ns=%d sk=%d uq=%d bk=%d dm=%d md=%s seed=%d",
-		c.kind, c.q, c.b, c.t, c.tk, c.p, c.o, c.n, c.fl, c.stop, c.hy, c.fin, c.ns, c.sk, c.uq, c.bk, c.dm, md, c.seed)
+	return fmt.Sprintf("cfg kind=%s q=%d b=%d t=%d tk=%d p=%d o=%d n=%d fl=%d stop=%d hy=%d fin=%d ns=%d sk=%d uq=%d bk=%d dm=%d md=%s fk=%d fa=%d seed=%d",
+		c.kind, c.q, c.b, c.t, c.tk, c.p, c.o, c.n, c.fl, c.stop, c.hy, c.fin, c.ns, c.sk, c.uq, c.bk, c.dm, md, c.fk, c.fa, c.seed)
 }
 
 // timeout is the configured batch time-out: besides the plain `t` ms, the legal corner values (a timer with a
@@ -170,6 +171,10 @@ func parseCfg(l string) (cfg, bool) {
 			c.bk = int(n)
 		case "dm":
 			c.dm = int(n)
+		case "fk":
+			c.fk = int(n)
+		case "fa":
+			c.fa = int(n)
 		case "md":
 			if v != "-" {
 				c.md = v
@@ -194,6 +199,7 @@ type world struct {
 	hook   func(p int)                     // at the verif yield point (after the running check)
 	cas    func(p int, o *obj, fresh bool) // inside BatchWriteScheduled, after the flag operation
 	erets  atomic.Int64                    // Enqueue calls returned so far
+	nBatched, nCommit atomic.Int64         // store calls of the writer goroutine so far (store-fail)
 	slow   atomic.Bool                     // flush-span: the hold took longer than a third of the batch time-out
 	panics atomic.Int64
 }
@@ -226,6 +232,68 @@ func (w *world) recLocked(kind string, args ...int) {
 		}
 		w.plog[args[0]] = append(w.plog[args[0]], strings.ReplaceAll(sb.String(), " ", "."))
 	}
+}
+
+// recPseudoLocked records a marker that is not an event of the trace predicate (`cf`: a store call failed, `slow`,
+// `crash`); `splitPseudo` takes them out again.
+func (w *world) recPseudoLocked(kind string) {
+	if w.frozen {
+		return
+	}
+	w.ev = append(w.ev, kind)
+	if streamEvents {
+		fmt.Println("EV " + kind)
+	}
+}
+
+// meta is what the pseudo events of a recorded run say.
+type meta struct {
+	slow    bool // flush-span / store-fail: the hold took too long, the batch timer may have interfered
+	crashed bool // the (child) process died at the store call that was made to fail
+	cfAt    int  // index (in the cleaned event list) at which the store call failed; -1: none
+}
+
+func splitPseudo(raw []string) ([]string, meta) {
+	m := meta{cfAt: -1}
+	clean := make([]string, 0, len(raw))
+	for _, l := range raw {
+		switch l {
+		case "slow":
+			m.slow = true
+		case "crash":
+			m.crashed = true
+		case "cf":
+			m.cfAt = len(clean)
+		default:
+			clean = append(clean, l)
+		}
+	}
+
+	return clean, m
+}
+
+// judge is the independent property oracle for a recorded run, pseudo events included: for a run that ended with
+// the crash of the process at a failed store call there is no final all-or-nothing check (nothing returns any
+// more), but nothing may have been committed, done or returned from Stop after the failed call.
+func judge(raw []string) (clean []string, m meta, per []string, end string) {
+	clean, m = splitPseudo(raw)
+	per, end = oracle(clean)
+	if m.crashed {
+		end = ""
+		if n := len(per); n > 0 {
+			end = per[n-1]
+		}
+		for i := max(m.cfAt, 0); i < len(clean) && end == ""; i++ {
+			switch parseEv(clean[i]).k {
+			case "d":
+				end = "done-before-commit"
+			case "cm", "tr":
+				end = "continued-after-store-error"
+			}
+		}
+	}
+
+	return clean, m, per, end
 }
 
 // recFlagLocked records a flag operation (sn / sd) and attributes it to the producer whose Enqueue issued it.
@@ -386,7 +454,25 @@ func (b *recBatch) Delete(k kvstore.Key) error {
 	return b.BatchedMutations.Delete(k)
 }
 
+// errInjected is what the failing store of the scenario `store-fail` returns.
+var errInjected = fmt.Errorf("injected store failure")
+
+// storeFails reports (and records: `cf`) that this call of the store is the one the scenario lets fail.
+func (w *world) storeFails(kind int, n int64) bool {
+	if w.c.fk != kind || int(n) != w.c.fa {
+		return false
+	}
+	w.mu.Lock()
+	w.recPseudoLocked("cf")
+	w.mu.Unlock()
+
+	return true
+}
+
 func (s *recStore) Batched() (kvstore.BatchedMutations, error) {
+	if s.w.storeFails(2, s.w.nBatched.Add(1)) {
+		return nil, errInjected
+	}
 	b, err := s.KVStore.Batched()
 	if err != nil {
 		return nil, err
@@ -396,6 +482,10 @@ func (s *recStore) Batched() (kvstore.BatchedMutations, error) {
 }
 
 func (b *recBatch) Commit() error {
+	if b.w.storeFails(1, b.w.nCommit.Add(1)) {
+		// nothing is applied: the batched mutations of a kvstore are atomic
+		return errInjected
+	}
 	err := b.BatchedMutations.Commit()
 	if err == nil {
 		// the commit and what it left in the store for every object of the batch (only the writer goroutine
@@ -628,21 +718,25 @@ func run(c cfg) []string {
 
 // run2 also returns the per-producer logs.
 func run2(c cfg) ([]string, map[int][]string) {
-	if c.kind == "bcorner" && os.Getenv("C08_BCORNER_CHILD") == "" {
+	for try := 0; ; try++ {
+		ev, plog := run1(c)
+		if _, m := splitPseudo(ev); m.slow && try < 4 {
+			// the machine stalled while the writer was held: the batch timer may have fired; once more
+			continue
+		}
+
+		return ev, plog
+	}
+}
+
+func run1(c cfg) ([]string, map[int][]string) {
+	if (c.kind == "bcorner" || c.kind == "store-fail") && os.Getenv("C08_BCORNER_CHILD") == "" {
 		return bcornerParent(c)
 	}
 	w := newWorld(c)
 	ev := runIn(w)
-	for try := 0; c.kind == "flush-span" && w.slow.Load() && try < 4; try++ {
-		// the machine stalled while the writer was held: the batch timer may have fired; once more
-		w = newWorld(c)
-		ev = runIn(w)
-	}
 	w.mu.Lock()
 	defer w.mu.Unlock()
-	if c.kind == "flush-span" && w.slow.Load() {
-		ev = append(ev, "slow")
-	}
 	plog := make(map[int][]string, len(w.plog))
 	for p, l := range w.plog {
 		plog[p] = append([]string(nil), l...)
@@ -702,8 +796,14 @@ func bcornerParent(c cfg) ([]string, map[int][]string) {
 		}
 	}
 	if err != nil {
-		// the child died: keep what it had recorded before (streamed lines), drop the final store lines if any
-		ev = append(ev, "panic 0")
+		// the child died: keep what it had recorded before (streamed lines)
+		_, m := splitPseudo(ev)
+		if c.kind == "store-fail" && m.cfAt >= 0 && strings.Contains(errb.String(), "panic: "+errInjected.Error()) {
+			// with the panic of the writer goroutine at the store call that was made to fail
+			ev = append(ev, "crash")
+		} else {
+			ev = append(ev, "panic 0")
+		}
 	}
 
 	return ev, plog
@@ -799,7 +899,8 @@ func runIn(w *world) []string {
 
 		return w.finish([]chan struct{}{p0}, []chan struct{}{s0}, stressBound)
 
-	case "flush-span":
+	case "flush-span", "store-fail":
+		// (store-fail: the same scenario in a child process, with a store whose fa-th Commit() / Batched() fails)
 		// a Flush that spans several batches: object 0's BatchWrite is held on a channel while the producer
 		// enqueues objects 1..n-1 (queue size n) and calls Flush; released, the writer drains the queue — in the
 		// flush loop as soon as it takes the flush request — committing every full batch on the way (collector
@@ -817,7 +918,12 @@ func runIn(w *world) []string {
 			}
 			w.rec("fl")
 			w.bw.Flush()
-			w.slow.Store(time.Since(t0) > c.timeout()/3)
+			if time.Since(t0) > c.timeout()/3 {
+				w.slow.Store(true)
+				w.mu.Lock()
+				w.recPseudoLocked("slow")
+				w.mu.Unlock()
+			}
 			close(gate)
 			w.waitCount("d ", c.n, stressBound)
 		})
@@ -1238,11 +1344,9 @@ type result struct {
 
 func emit(r *hx.Run, sub uint64, res result) (failed bool) {
 	r.Case(sub)
-	slow := false
-	if n := len(res.ev); n > 0 && res.ev[n-1] == "slow" {
-		slow, res.ev = true, res.ev[:n-1]
-	}
-	per, end := oracle(res.ev)
+	clean, m, per, end := judge(res.ev)
+	res.ev = clean
+	slow := m.slow
 	r.Line(res.c.line(), "ok")
 	for i, l := range res.ev {
 		a := "ok"
@@ -1251,10 +1355,63 @@ func emit(r *hx.Run, sub uint64, res result) (failed bool) {
 		}
 		r.Line(l, a)
 	}
-	if end == "" {
+	switch {
+	case m.crashed:
+		// the process died at the failed store call: the verdict on the trace up to there, and the objects that
+		// were written but not committed (last BatchWrite after the last commit)
+		ans := "reject " + end
+		if n := len(per); n > 0 && per[n-1] != "" {
+			ans = "reject " + per[n-1]
+		} else {
+			lastCm := -1
+			un := map[int]bool{}
+			for i, l := range res.ev {
+				switch e := parseEv(l); e.k {
+				case "cm":
+					lastCm = i
+					un = map[int]bool{}
+				case "w":
+					un[e.a] = true
+				}
+			}
+			_ = lastCm
+			ids := make([]string, 0, len(un))
+			keys := make([]int, 0, len(un))
+			for o := range un {
+				keys = append(keys, o)
+			}
+			sort.Ints(keys)
+			for _, o := range keys {
+				ids = append(ids, strconv.Itoa(o))
+			}
+			ans = "crashed uncommitted=" + strings.Join(ids, ",")
+		}
+		r.Line("crash", ans)
+		r.Count("store-fail:crashed")
+	case end == "":
 		r.Line("end", "accept")
-	} else {
+	default:
 		r.Line("end", "reject "+end)
+	}
+	if res.c.kind == "store-fail" {
+		r.Count(fmt.Sprintf("store-fail:%s#%d", [...]string{"", "Commit", "Batched"}[res.c.fk%3], res.c.fa))
+		if slow {
+			r.Count("flush-span:stalled-no-model-line")
+		} else {
+			// the writer's part of the trace and whether the process died: as the model's `sysE` on the same scenario
+			var t []string
+			for _, l := range res.ev {
+				switch parseEv(l).k {
+				case "rs", "w", "cm", "d":
+					t = append(t, strings.ReplaceAll(l, " ", "."))
+				}
+			}
+			out := "|completed"
+			if m.crashed {
+				out = "|crashed"
+			}
+			r.Line(fmt.Sprintf("model store-fail b=%d n=%d fk=%d fa=%d", res.c.b, res.c.n, res.c.fk, res.c.fa), "W:"+strings.Join(t, ",")+out)
+		}
 	}
 	switch res.c.kind {
 	case "window", "window-block", "window-dup", "two-stops":
@@ -1394,6 +1551,9 @@ func emit(r *hx.Run, sub uint64, res result) (failed bool) {
 		if res.c.bk > 0 {
 			trig = "batch-size<=0"
 		}
+		if res.c.kind == "store-fail" {
+			trig = "store-error"
+		}
 		excerpt := res.ev
 		if len(excerpt) > 60 {
 			excerpt = excerpt[:60]
@@ -1453,7 +1613,7 @@ func runBatch(r *hx.Run, cs []cfg, par int) {
 			ev, plog := run2(c)
 			res[i] = result{c, ev, plog}
 			ran[i] = true
-			if _, end := oracle(res[i].ev); end != "" {
+			if _, _, _, end := judge(res[i].ev); end != "" {
 				failedCases.Add(1)
 				if end == "blocked-forever" {
 					hungCases.Add(1)
@@ -1468,7 +1628,7 @@ func runBatch(r *hx.Run, cs []cfg, par int) {
 		}
 		// the first failing stress case of each kind of failure is shrunk, and the smallest failing configuration
 		// is emitted before it: it becomes the failing input of the replay
-		if _, end := oracle(res[i].ev); end != "" && res[i].c.kind == "stress" && !shrunk[end] && len(shrunk) < 3 {
+		if _, _, _, end := judge(res[i].ev); end != "" && res[i].c.kind == "stress" && !shrunk[end] && len(shrunk) < 3 {
 			shrunk[end] = true
 			if small, ok := shrink(res[i].c, end); ok {
 				r.Count("shrunk-failing-case")
@@ -1490,7 +1650,7 @@ func shrink(c cfg, want string) (result, bool) {
 	try := func(cand cfg) bool {
 		for i := 0; i < 20 && time.Now().Before(deadline); i++ {
 			ev, plog := run2(cand)
-			if _, end := oracle(ev); end == want {
+			if _, _, _, end := judge(ev); end == want {
 				best, found = result{cand, ev, plog}, true
 
 				return true
@@ -1570,7 +1730,7 @@ func main() {
 		// child process of a `bcorner` case: run it, stream the events as they are recorded
 		c, _ := parseCfg(l)
 		streamEvents = true
-		ev, plog := run2(c)
+		ev, plog := run1(c)
 		_ = ev
 		for p, l := range plog {
 			fmt.Printf("PL %d %s\n", p, strings.Join(l, " "))
@@ -1589,7 +1749,7 @@ func main() {
 				for i := 0; i < 300; i++ {
 					ev, plog := run2(c)
 					res = result{c, ev, plog}
-					if _, end := oracle(res.ev); end != "" {
+					if _, _, _, end := judge(res.ev); end != "" {
 						break
 					}
 				}
@@ -1676,6 +1836,16 @@ func main() {
 	for i := 0; i < 6*r.Scale; i++ {
 		_, s := r.Rng.Fork()
 		forced = append(forced, cfg{kind: "bcorner", q: 1 + i%3, bk: 1 + i%3, t: 5, p: 1, o: 2, n: 3, fl: 1, uq: b2i(i%6 == 5), seed: s})
+	}
+	runBatch(r, forced, 6)
+	// a store whose k-th Commit() / Batched() fails, each in a child process: the writer goroutine's panic must end
+	// the process before any BatchWriteDone of the failed batch, any further commit or any return of Stop
+	forced = forced[:0]
+	for i := 0; i < 18*r.Scale; i++ {
+		rng, s := r.Rng.Fork()
+		b := 1 + i%3
+		n := rng.Range(2*b+1, 3*b+1)
+		forced = append(forced, cfg{kind: "store-fail", q: n, b: b, t: 600, p: 1, o: n, n: n, fl: 1, fk: 1 + (i/3)%2, fa: 1 + (i/6)%3, seed: s})
 	}
 	runBatch(r, forced, 6)
 	// same-batch: every sequence of two write modes, and random ones of length 3..5, re-enqueued into one batch
